@@ -51,8 +51,10 @@ func (ICS20Scenario) Generate(rng *rand.Rand, focus, tier string) kernel.Plan {
 			add("toggle")
 		case x < 86:
 			add("param", rng.Int63n(2))
-		case x < 92:
+		case x < 90:
 			add("destroy")
+		case x < 94:
+			add("multihop", rng.Int63n(4))
 		default:
 			add("back", rng.Int63n(4))
 		}
@@ -73,6 +75,7 @@ type icsWorld struct {
 	pairOn     bool
 	destroyed  bool // the registered pair's contract no longer exists (self-destructed)
 	relayerGas uint64
+	otherDenom bool // the packet being received carries another denomination than the registered voucher
 	aggOn      bool
 }
 
@@ -190,6 +193,8 @@ func (w *icsWorld) apply(op kernel.Op) {
 		w.coord.CommitBlock(w.b)
 		w.aggOn = on
 		w.rec.Logf("aggregate module enabled=%v", on)
+	case "multihop":
+		w.multihop(op)
 	case "destroy":
 		// the pair's token contract ceases to exist (account deleted, as the repository's own tests do to
 		// model a self-destruct); the next conversion attempt must clean the pair up and move nothing
@@ -286,6 +291,61 @@ func (w *icsWorld) deliverWithGas(gas uint64, msgs ...sdk.Msg) error {
 	w.coord.IncrementTime()
 	w.fix()
 	return derr
+}
+
+// multihop: chain A forwards a coin that reached it over another channel (its denomination carries a trace
+// of its own: transfer/channel-7/stake). On B it becomes a voucher of another denomination than the
+// registered one-hop voucher, although both have the same base denomination.
+func (w *icsWorld) multihop(op kernel.Op) {
+	aApp, ok := w.a.App.(*app.Teleport)
+	if !ok {
+		return
+	}
+	amt := sdk.NewInt(icsAmounts[kernel.Mod(op.Arg(0), len(icsAmounts))])
+	trace := transfertypes.DenomTrace{Path: "transfer/channel-7", BaseDenom: sdk.DefaultBondDenom}
+	coin := sdk.NewCoin(trace.IBCDenom(), amt)
+	ctx := w.a.GetContext()
+	aApp.IBCTransferKeeper.SetDenomTrace(ctx, trace)
+	if err := aApp.BankKeeper.MintCoins(ctx, transfertypes.ModuleName, sdk.NewCoins(coin)); err != nil {
+		w.rec.Logf("multihop: mint failed: %v", err)
+		return
+	}
+	if err := aApp.BankKeeper.SendCoinsFromModuleToAccount(ctx, transfertypes.ModuleName, w.a.SenderAccount.GetAddress(), sdk.NewCoins(coin)); err != nil {
+		w.rec.Logf("multihop: funding failed: %v", err)
+		return
+	}
+	w.coord.CommitBlock(w.a)
+	w.fix()
+	msg := transfertypes.NewMsgTransfer(w.path.EndpointA.ChannelConfig.PortID, w.path.EndpointA.ChannelID, coin,
+		w.a.SenderAccount.GetAddress().String(), w.userB.String(), clienttypes.NewHeight(2, 100000), 0)
+	res, err := w.a.SendMsgs(msg)
+	if err != nil {
+		w.rec.Logf("multihop transfer not sent: %v", err)
+		return
+	}
+	packet, err := ibctesting.ParsePacketFromEvents(res.GetEvents())
+	if err != nil {
+		w.rec.HarnessFail("no packet in transfer events")
+		return
+	}
+	w.rec.Fault("workload.multihop_denomination")
+	w.relayerGas = 0
+	other := transfertypes.ParseDenomTrace(transfertypes.GetPrefixedDenom(w.path.EndpointB.ChannelConfig.PortID, w.path.EndpointB.ChannelID, trace.GetFullDenomPath())).IBCDenom()
+	preOther := w.bApp.BankKeeper.GetBalance(w.b.GetContext(), w.userB, other).Amount
+	preV, preM, preT := w.balances(w.userB)
+	w.otherDenom = true
+	w.receive(packet, amt, "multihop", w.userB)
+	w.otherDenom = false
+	postOther := w.bApp.BankKeeper.GetBalance(w.b.GetContext(), w.userB, other).Amount
+	postV, postM, postT := w.balances(w.userB)
+	// the vouchers of the packet's own denomination arrive; nothing of the registered pair moves
+	if !postOther.Sub(preOther).Equal(amt) {
+		w.rec.Violate("C16", "multihop_voucher", "not_credited", "a multi-hop coin of %s arrived but the receiver's balance of its voucher changed by %s", amt, postOther.Sub(preOther))
+	}
+	if !postV.Equal(preV) || !postM.Equal(preM) || postT.Cmp(preT) != 0 {
+		w.rec.Violate("C16", "conversion_touched_other_denomination", w.regState(), "a packet of an unregistered (multi-hop) denomination moved the registered pair: receiver vouchers %s, escrow %s, tokens %s",
+			postV.Sub(preV), postM.Sub(preM), new(big.Int).Sub(postT, preT))
+	}
 }
 
 // back: B returns vouchers to A (burn on B), so that a later transfer exercises "returning native coins" on A.
@@ -400,6 +460,9 @@ func (w *icsWorld) receive(packet channeltypes.Packet, amt sdk.Int, kind string,
 	}
 	if who.Equals(authtypes.NewModuleAddress(aggregatetypes.ModuleName)) {
 		return // receiver and escrow account coincide
+	}
+	if w.otherDenom {
+		return // judged by the caller, in terms of the packet's own denomination
 	}
 	// atomic conversion: either +x tokens and +x escrowed vouchers, or +x vouchers and no token change
 	dV, dM, dT := postV.Sub(preV), postM.Sub(preM), new(big.Int).Sub(postT, preT)
